@@ -50,6 +50,12 @@ func baseGen(r *rand.Rand, k int) GenCfg {
 	return g
 }
 
+func sleepGen(r *rand.Rand) GenCfg {
+	return GenCfg{Weights: []int{1, 1, 1, 1}, Epochs: 1, EpochEvents: 1050 + r.Intn(30), MaxParents: 2, Sleeper: true, SleeperOld: true}
+}
+
+func sleepPlays() []PlayOpts { return []PlayOpts{{Order: "gen", RichBuilds: 1, RichFrom: 1000}} }
+
 func multiEpoch(r *rand.Rand, g GenCfg) GenCfg {
 	g.Epochs = 2 + r.Intn(2)
 	g.SealFrames = nil
@@ -71,6 +77,11 @@ var profiles = map[string]profile{
 				Stall: 300 + r.Intn(40), OldParent: 0.02}
 		},
 		plays: func(r *rand.Rand, k int) []PlayOpts { return []PlayOpts{{Order: "topo"}} },
+	},
+	// experiment: a validator that sleeps through more than 1000 events; its speculative event on all heads is only built
+	"xsleep": {
+		gen:   func(r *rand.Rand, k int) GenCfg { return sleepGen(r) },
+		plays: func(r *rand.Rand, k int) []PlayOpts { return sleepPlays() },
 	},
 	// experiment: dense DAGs with a slow first validator
 	"xlag": {
@@ -224,6 +235,9 @@ var profiles = map[string]profile{
 	"c07": {
 		gen: func(r *rand.Rand, k int) GenCfg {
 			g := baseGen(r, k)
+			if k%10 == 9 { // a validator sleeps through more than 1000 events; what it could build on all heads is only built, its real event is sparse
+				return sleepGen(r)
+			}
 			if k%3 == 0 {
 				g = multiEpoch(r, g)
 			}
@@ -231,6 +245,9 @@ var profiles = map[string]profile{
 		},
 		plays: func(r *rand.Rand, k int) []PlayOpts {
 			o := orders[k%3]
+			if k%10 == 9 {
+				return sleepPlays()
+			}
 			return []PlayOpts{{Order: o, Builds: 0.8, Rejects: 0.8, BuildEach: true, RichBuilds: 0.7, Rebuilds: 0.5, FCQueries: 2}, {Order: o}}
 		},
 	},
